@@ -31,7 +31,9 @@ func newXMLWriter() *xmlWriter {
 }
 
 func (enc *xmlWriter) Clear() {
-	panicOnErr(enc.w.Close())
+	// Close reports the elements left open by an encoding that failed half-way: the writer
+	// is reset whatever state it was left in.
+	_ = enc.w.Close()
 	enc.buf.Reset()
 	enc.w = xml.NewEncoder(enc.buf)
 	enc.w.Indent("", "    ")
